@@ -1,7 +1,8 @@
 use crate::core::Prop;
+pub mod c01;
 pub mod c06;
 pub mod c09;
 
 pub fn all() -> Vec<&'static Prop> {
-    vec![&c06::PROP, &c09::PROP]
+    vec![&c01::PROP, &c06::PROP, &c09::PROP]
 }
